@@ -160,6 +160,7 @@ compact_array_tuple_sketch<Array, Allocator> compact_array_tuple_sketch<Array, A
   if (has_entries) {
     const auto num_entries = read<uint32_t>(is);
     read<uint32_t>(is); // unused
+    if (!is.good()) throw std::runtime_error("error reading from std::istream");
     entries.reserve(num_entries);
     std::vector<uint64_t, AllocU64> keys(num_entries, 0, allocator);
     read(is, keys.data(), num_entries * sizeof(uint64_t));
